@@ -836,11 +836,22 @@ static void mutate_checks(Node *t, const unsigned char *E) {
 			nw = leaf_new(old2->tag, old2->nc, old2->fwd, pay, pl);
 			measure(nw);
 			case_sub(" edit: replace child %zu of %zu (tag 0x%x) by a value of %zu octets", c2, t->nk, old2->tag, pl);
-			ne = build_el(nw);
+			/* the new child is parsed from a buffer of the caller's; after the parent has been detached once more that buffer is the caller's to
+			 * reuse or release (half of the times; otherwise the child is built the usual ways) */
+			{ unsigned char *cb = NULL; int own_buf = (int)vh_below(2);
+			if (own_buf) { cb = malloc(nw->elen ? nw->elen : 1); enc(nw, cb, NULL); ne = NULL; if (KSI_TlvElement_parse(cb, nw->elen, &ne) != KSI_OK) ne = NULL; }
+			else ne = build_el(nw);
 			if (ne) {
 				int rc3 = KSI_TlvElement_setElement(el, ne);
 				vh_eval++;
 				KSI_TlvElement_free(ne);
+				if (own_buf && rc3 == KSI_OK) {
+					int rc4 = KSI_TlvElement_detach(el);
+					vh_eval++;
+					if (rc4 != KSI_OK) vh_viol("element.detach:second-detach:refused", tdesc, "KSI_TlvElement_detach on an element that was detached before and then given a child res=0x%x", rc4);
+					memset(cb, 0xDD, nw->elen); free(cb); cb = NULL;
+					vh_count("edit_second_detach_then_child_buffer_released", 1);
+				}
 				t->kid[c2] = nw; measure(t);
 				if (rc3 != KSI_OK) { if (t->fits) vh_viol("element.setElement:replace-child:refused", tdesc, "KSI_TlvElement_setElement(tag 0x%x, present once) res=0x%x", nw->tag, rc3); }
 				else if (t->fits) {
@@ -852,6 +863,7 @@ static void mutate_checks(Node *t, const unsigned char *E) {
 				}
 				t->kid[c2] = old2; measure(t);
 			}
+			free(cb); }
 			free(nw->pl); free(nw);
 		}
 	}
